@@ -28,7 +28,8 @@ ASSUMPTIONS = [
     'covered (in-place list methods such as append / extend / += are outside the statement)',
     'a right operand is a list (or ulist) or a single non-list element; tuples count as single elements (a small block of tuple elements is enumerated)',
     'mapping keys are plain strings that neither contain a dot nor shadow a dict / dictattr attribute; keys with a leading underscore take part in attribute READ access only '
-    '(keys, items, copy ...); values are ints or lists, never dicts (Dict + other is a tree merge on nested dicts: that is C15)',
+    '(keys, items, copy ...); values are ints or lists; a value that is itself a mapping only appears in the "nested" sub-cases, where d + other reaching into it and '
+    "d - 'k.x' are only required to leave d and the nested mapping untouched and to keep d's keys (what the nested merge returns is C15)",
     "d - ('a', 'b') with a tuple is nested-path deletion and is excluded; d | other is not named by the statement and is not checked",
     'the right operand of d + other is a flat dict, dictattr, Dict or an instance of the user subclass of Dict',
     'key ORDER of a result is compared only for d - keys (the statement equates it with the ulist d.keys() - k); for &, d[[...]], '
@@ -470,6 +471,45 @@ def check_mapping(case):
             out.cls('add-' + okd)
             if okd == 'mixed':
                 out.nontrivial('+%d%s' % (oi, okind))
+
+    # ---- a value that is itself a mapping (plain dict, OrderedDict, dictattr, the user subclass): d + other reaching INTO it and d - 'k.x' (an absent key that
+    #      spells a path into it) must leave d and the nested mapping exactly as they were; what the nested merge returns is C15's business
+    if mode == 'obj' and keys:
+        import collections
+        k0 = keys[0]
+        for nkind, ncls in (('dict', dict), ('OrderedDict', collections.OrderedDict), ('dictattr', _classes()['dictattr']), ('SubDict', _classes()['SubDict'])):
+            for opname in ('+', '-str', '-list', '-scalar-head'):
+                out.sub()
+                inner = ncls([('x', 1), ('w', [2])])
+                inner_items = list(dict.items(inner))
+                pairs0 = [(k, (inner if k == k0 else vals[k])) for k in keys]
+                if opname == '-scalar-head':
+                    pairs0 = [(k, (3 if k == k0 else vals[k])) for k in keys]          # the head of the dotted name holds a scalar: the name is simply absent
+                d = cls(pairs0)
+                what = '%s with %s = %s(x=1, w=[2]) %s' % (shown, k0, nkind, {'+': "+ {%r: {'y': 5, 'x': 7}}" % k0, '-str': "- '%s.x'" % k0, '-list': "- ['%s.x', 'zz']" % k0,
+                                                                         '-scalar-head': "(here %s = 3) - '%s.x'" % (k0, k0)}[opname])
+                try:
+                    if opname == '+':
+                        res = d + {k0: {'y': 5, 'x': 7}}
+                    elif opname == '-list':
+                        res = d - ['%s.x' % k0, 'zz']
+                    else:
+                        res = d - ('%s.x' % k0)
+                    out.call()
+                except Exception as e:
+                    out.viol('raised', '%s raised %s: %s' % (what, type(e).__name__, e), op=opname[0], cls=cname, nested=nkind, exc=type(e).__name__)
+                    continue
+                now = raw(d)
+                same = len(now) == len(pairs0) and all(a[0] == b[0] and a[1] is b[1] for a, b in zip(now, pairs0))
+                if opname != '-scalar-head':
+                    same = same and list(dict.items(inner)) == inner_items and all(a[1] is b[1] for a, b in zip(dict.items(inner), inner_items))
+                if not same:
+                    out.viol('operand-mutated', '%s: d is now %r, its nested mapping %r (was %r)' % (what, now, list(dict.items(inner)), inner_items), op=opname[0], cls=cname, nested=nkind)
+                elif opname != '+' and (type(res) is not cls or list(dict.keys(res)) != keys):
+                    out.viol('wrong-keys', '%s: the name is not a key of d, expected a %s with the keys %r, got %s %r' % (what, cname, keys, type(res).__name__, list(dict.keys(res))),
+                             op='-', cls=cname, sel='absent', spell='dotted', order_only=False)
+                elif opname == '+' and not (isinstance(res, dict) and set(dict.keys(res)) == set(keys)):
+                    out.viol('wrong-keys', '%s: result keys %r' % (what, list(dict.keys(res)) if isinstance(res, dict) else res), op='+', cls=cname, other='nested', sel='present', law=False)
 
     # ---- relabel with a caller-owned dict of renames plus keyword renames: the caller's dict is an operand too
     if 'a' in keys and 'b' in keys:
